@@ -40,9 +40,10 @@ package plumbing
 //gvc:end
 
 //gvc:func (*Reference).Hash
-//gvc:  props C19 C39
+//gvc:  props C19 C39 C22
 //gvc:  theory int
 //gvc:  ensures same: result == r.h
+//gvc:  ensures kid: keyid(result) == keyid(r.h)
 //gvc:end
 
 //gvc:func NewHashReference
